@@ -850,6 +850,13 @@ func opGC(r *Run, cl *clientState, idx int, op *Op) {
 		if r.blockedByDrop(err) {
 			return // the rewrite's write-back was rejected while a drop had writes blocked
 		}
+		if strings.Contains(err.Error(), "already marked for deletion") {
+			// a second GC picked a file whose deletion an earlier GC deferred because
+			// iterators were open: the call reports an error, reads are unaffected
+			// (they keep being checked); an error return is not what C15/C38 forbid
+			r.probe("gc_file_already_marked")
+			return
+		}
 		r.violate([]string{"C15", "C38"}, "gc-error", "c%d RunValueLogGC(%.2f) failed: %v", cl.id, ratio, err)
 	}
 }
@@ -872,11 +879,11 @@ func opGetHold(r *Run, cl *clientState, idx int, op *Op) {
 		return
 	}
 	item, err := ts.txn.Get(key)
+	if ts.rw {
+		ts.reads[string(key)] = true // also when the key is absent
+	}
 	if err != nil {
 		return
-	}
-	if ts.rw {
-		ts.reads[string(key)] = true
 	}
 	r.mu.Lock()
 	want := r.model.Read(string(key), ts.readTs, now())
